@@ -62,6 +62,22 @@ func init() {
 				calls: map[string]string{"s.s.CheckHex": "signer|Signer|CheckHex"},
 				params: []pspec{{src: "s.window", name: "s_window", typ: "time.Duration"}, now,
 					{src: "token", name: "token", typ: "string"}}}},
+			{dir: "jwt", name: "CheckTime", cfg: transCfg{params: []pspec{
+				{src: "claims.Iat", name: "claims_Iat", typ: "int64"},
+				{src: "claims.Exp", name: "claims_Exp", typ: "int64"},
+				{src: "now", name: "now", typ: "time.Time"}}}},
+			{dir: "roles", name: "subtleStringEq"},
+			{dir: "roles", name: "checkPassCode", cfg: transCfg{params: []pspec{
+				{src: "claim", name: "claim", typ: "string"},
+				{src: "code", name: "code_nil", typ: tNilness},
+				{src: "code.Valid", name: "code_Valid_nil", typ: tNilness},
+				{src: "code.Expire", name: "code_Expire_nil", typ: tNilness},
+				{src: "code.Tried", name: "code_Tried", typ: "int"},
+				{src: "code.Consumed", name: "code_Consumed", typ: "bool"},
+				{src: "code.Valid.Time()", name: "code_Valid_Time", typ: "time.Time"},
+				{src: "code.Expire.Time()", name: "code_Expire_Time", typ: "time.Time"},
+				{src: "code.Code", name: "code_Code", typ: "string"},
+				{src: "now", name: "now", typ: "time.Time"}}}},
 		})
 	})
 }
